@@ -1120,7 +1120,10 @@ Error CodeHolder::flatten() noexcept {
       prev->_virtual_size = offset - prev->_offset;
     }
 
-    prev = section;
+    // An empty section occupies nothing and must not be given a size (it would then need its alignment).
+    if (real_size) {
+      prev = section;
+    }
     offset += real_size;
   }
 
